@@ -10,27 +10,32 @@ open Kopf.C06
 
 theorem mustBlock_eq (a : Atoms) :
     Extracted.mustBlock a = mustBlockG a.spawning a.spawnReq a.changing a.changeReq := by
-  rcases a with ⟨a, b, c, d, e, f, g, h, i, j⟩
+  rcases a with ⟨a, b, c, d, e, f, g, h, i, j, dl, ps, ie⟩
   cases a <;> cases b <;> cases c <;> cases d <;> rfl
 
 theorem add_eq (a : Atoms) :
     Extracted.addCond a = addG (mustBlockG a.spawning a.spawnReq a.changing a.changeReq) a.isBlocked a.isOngoing := by
-  rcases a with ⟨a, b, c, d, e, f, g, h, i, j⟩
+  rcases a with ⟨a, b, c, d, e, f, g, h, i, j, dl, ps, ie⟩
   cases a <;> cases b <;> cases c <;> cases d <;> cases e <;> cases f <;> rfl
 
 theorem remove_eq (a : Atoms) :
     Extracted.removeCond a = removeG (mustBlockG a.spawning a.spawnReq a.changing a.changeReq) a.isBlocked := by
-  rcases a with ⟨a, b, c, d, e, f, g, h, i, j⟩
+  rcases a with ⟨a, b, c, d, e, f, g, h, i, j, dl, ps, ie⟩
   cases a <;> cases b <;> cases c <;> cases d <;> cases e <;> rfl
 
 theorem early_eq (a : Atoms) : Extracted.earlyCond a = earlyG a.changingAfter a.consistent := by
-  rcases a with ⟨a, b, c, d, e, f, g, h, i, j⟩
+  rcases a with ⟨a, b, c, d, e, f, g, h, i, j, dl, ps, ie⟩
   cases g <;> cases h <;> rfl
 
 theorem release_eq (a : Atoms) :
     Extracted.releaseCond a = releaseG a.deletedEvent a.isOngoing a.isBlocked a.delaysNonEmpty := by
-  rcases a with ⟨a, b, c, d, e, f, g, h, i, j⟩
+  rcases a with ⟨a, b, c, d, e, f, g, h, i, j, dl, ps, ie⟩
   cases e <;> cases f <;> cases i <;> cases j <;> rfl
+
+/-- The condition under which the early exit adds the rest of the waiting time to the delays it returns. -/
+theorem wait_eq (a : Atoms) : Extracted.waitCond a = waitG a.deadline a.paused (!a.initiallyEmpty) := by
+  rcases a with ⟨a, b, c, d, e, f, g, h, i, j, dl, ps, ie⟩
+  cases dl <;> cases ps <;> cases ie <;> rfl
 
 /-- (fn appended, `changing_cause = None` in that branch) for the three branches; and there are
 exactly three `patch.fns.append` sites in the function, all of them in these branches. -/
@@ -43,7 +48,7 @@ theorem effects_eq :
 `changing_cause` survives iff neither early branch fired; `delays` = spawning ++ changing. -/
 theorem decision_eq (i : In) :
     let a0 : Atoms := ⟨i.spawning, i.spawnReq, i.changing, i.changeReq, i.isBlocked, i.isOngoing,
-                       false, i.consistent, i.deletedEvent, false⟩
+                       false, i.consistent, i.deletedEvent, false, i.deadline, i.paused, !i.carried⟩
     let add := Extracted.addCond a0
     let rem := Extracted.removeCond a0
     let chg := i.changing && !((if add then Extracted.addEffect.2 else false) || (if rem then Extracted.removeEffect.2 else false))
@@ -52,11 +57,12 @@ theorem decision_eq (i : In) :
     let a2 : Atoms := { a1 with delaysNonEmpty := i.spawnDelays || (chg && i.changeDelays) }
     decision i = { add := add, removeUnneeded := rem, release := !early && Extracted.releaseCond a2,
                    handlersRun := chg && !early,
-                   -- `return list(spawning_delays), False` vs. `delays = list(spawning_delays) + list(changing_delays)`
-                   delays := if early then i.spawnDelays else a2.delaysNonEmpty } := by
-  rcases i with ⟨a, b, c, d, e, f, g, h, j, k⟩
-  cases a <;> cases b <;> cases c <;> cases d <;> cases e <;> cases f <;> cases g <;> cases h <;>
-    cases j <;> cases k <;> rfl
+                   -- `return list(spawning_delays) + list(waiting_delays), False` vs.
+                   -- `delays = list(spawning_delays) + list(changing_delays)`
+                   delays := if early then i.spawnDelays || Extracted.waitCond a0 else a2.delaysNonEmpty } := by
+  rcases i with ⟨a, b, c, d, e, f, g, h, j, k, dl, ps, cr⟩
+  -- (the other inputs occur in the same places on both sides; the three of the waiting delay are compared outright)
+  cases a <;> cases b <;> cases c <;> cases d <;> cases e <;> cases f <;> cases h <;> cases dl <;> cases ps <;> cases cr <;> rfl
 
 /-- What `process_resource_event` drops from a rejected patch before storing it in the memory is
 what the model drops: both finalizer edits, i.e. every fn of the model. -/
